@@ -116,12 +116,20 @@ def run(ctx):
         # --- maxvol-based search: consistency only
         if len(n) >= 2 and rng.random() < 0.25:
             try:
-                imin, ymin, imax, ymax = teneva.optima_tt_maxvol(Y, max(1, min(k, 4)))
-                consistent(ctx, 'optima_tt_maxvol', Fd, imin, ymin, case, 'optima_tt_maxvol min')
-                consistent(ctx, 'optima_tt_maxvol', Fd, imax, ymax, case, 'optima_tt_maxvol max')
-                ctx.check(float(ymin) <= float(ymax), 'optima_tt_maxvol:order', 'optima_tt_maxvol: min > max', case=case)
+                for how in ('smart', 'l2r', 'r2l', 'both'):
+                    imin, ymin, imax, ymax = teneva.optima_tt_maxvol(Y, max(1, min(k, 4)), how=how)
+                    consistent(ctx, 'optima_tt_maxvol', Fd, imin, ymin, case, 'optima_tt_maxvol(%s) min' % how)
+                    consistent(ctx, 'optima_tt_maxvol', Fd, imax, ymax, case, 'optima_tt_maxvol(%s) max' % how)
+                    ctx.check(float(ymin) <= float(ymax), 'optima_tt_maxvol:order', 'optima_tt_maxvol(%s): min > max' % how, case=case)
             except Exception as ex:
-                ctx.violation('optima_tt_maxvol:raises', 'optima_tt_maxvol raised %s: %s' % (type(ex).__name__, ex), case=case)
+                # known finding: LinAlgError on tensors with a rank-deficient unfolding (TT-rank above the unfolding's rank)
+                deficient = False
+                for b in range(1, len(n)):
+                    M = Fd.reshape(int(np.prod(n[:b])), -1)
+                    if np.linalg.matrix_rank(M) < Y[b].shape[0]:
+                        deficient = True
+                sig = 'optima_tt_maxvol:singular' if (type(ex).__name__ == 'LinAlgError' and deficient) else 'optima_tt_maxvol:raises'
+                ctx.violation(sig, 'optima_tt_maxvol raised %s: %s' % (type(ex).__name__, ex), case=case)
         # --- quantised variant for power-of-two shapes
         if all(q in (2, 4) for q in n) and len(set(n)) == 1:
             imin, ymin, imax, ymax = teneva.optima_qtt(Y, k, e=1e-14)
@@ -132,6 +140,18 @@ def run(ctx):
                 if k >= N:
                     ctx.check(abs(float(ymin) - g['minv']) < 1e-9 and abs(float(ymax) - g['maxv']) < 1e-9, 'optima_qtt:exact',
                               'optima_qtt(k=%d): (min, max) = (%s, %s), true (%s, %s)' % (k, ymin, ymax, g['minv'], g['maxv']), case=case)
+    # --- constant tensor represented with TT-rank 2 (rank-deficient unfoldings): every routine must cope
+    Cst = teneva.add(teneva.const([3, 3, 3], 1.), teneva.const([3, 3, 3], 2.))
+    Fc = F.dense(Cst)
+    for name, fn in (('optima_tt', lambda: teneva.optima_tt(Cst, 2)), ('optima_tt_max', lambda: teneva.optima_tt_max(Cst, 2) * 2),
+                     ('optima_tt_maxvol', lambda: teneva.optima_tt_maxvol(Cst, 2))):
+        ctx.case(key=('const-rank2', name), nontrivial=True)
+        try:
+            imin, ymin, imax, ymax = fn()
+            ctx.check(abs(ymin - 3.) < 1e-9 and abs(ymax - 3.) < 1e-9, name + ':const', '%s on a constant tensor: (%r, %r)' % (name, ymin, ymax))
+        except Exception as ex:
+            sig = 'optima_tt_maxvol:singular' if (name == 'optima_tt_maxvol' and type(ex).__name__ == 'LinAlgError') else name + ':raises'
+            ctx.violation(sig, '%s raised %s: %s on the constant tensor add(const(1), const(2))' % (name, type(ex).__name__, ex))
     # --- functional variant
     res = tlc.run('OptimaFunc', workers=4, timeout=600)
     ctx.add_tlc(res, 'OptimaFunc: exact per-mode maxima of |p| for rank-1 coefficient tensors')
